@@ -493,6 +493,236 @@ theorem sortNatural_respects : ImplRespects true false [.val .anys, .val .any] (
   rw [eager_val2, eager_val2]
   exact wrapR_rel (sortNaturalWith_rel hx hk)
 
+/-! ## `sort_natural` with drops nested in containers (every `d`)
+
+`sortNaturalFilter` looks at its elements as they are (`v == nil`, `reflect.ValueOf(m)`): it relies on `Convert` to
+`[]any` having passed every element through `ToLiquid`. So the sort texts of two related elements agree when neither
+is a drop at the top (`natKey_repEq_noDrop`, `natKeyBy_repEq_noDrop`), and "no element is a drop" is carried through
+the insertion sort and the decoration (`NLD`). -/
+
+theorem rrel_mono {t : Bool} {α} {R S : α → α → Prop} (hRS : ∀ a a', R a a' → S a a') {r r' : Res Cause α}
+    (h : RRel t R r r') : RRel t S r r' := by
+  cases r <;> cases r' <;> simp only [RRel] at h ⊢ <;> first | exact hRS _ _ h | exact h
+
+theorem noDrops_cons {y : GoVal} {ys : List GoVal} (hy : noDrop y = true) (h : NoDrops ys) : NoDrops (y :: ys) := by
+  intro z hz
+  rcases List.mem_cons.mp hz with rfl | hz
+  · exact hy
+  · exact h z hz
+
+theorem noDrops_reverse {ys : List GoVal} (h : NoDrops ys) : NoDrops ys.reverse :=
+  fun z hz => h z (List.mem_reverse.mp hz)
+
+/-- lists related element by element, none of whose elements is a drop at the top (a converted `[]any`) -/
+def NLD (d : Bool) (ys ys' : List GoVal) : Prop := NL d ys ys' ∧ NoDrops ys ∧ NoDrops ys'
+
+theorem NLD.nil : NLD d [] [] := ⟨rfl, NoDrops.nil, NoDrops.nil⟩
+
+theorem NLD.cons {x x' : GoVal} {ys ys' : List GoVal} (hx : RepEq d x x') (nx : noDrop x = true) (nx' : noDrop x' = true)
+    (h : NLD d ys ys') : NLD d (x :: ys) (x' :: ys') :=
+  ⟨NL.cons hx h.1, noDrops_cons nx h.2.1, noDrops_cons nx' h.2.2⟩
+
+theorem NLD.reverse {ys ys' : List GoVal} (h : NLD d ys ys') : NLD d ys.reverse ys'.reverse :=
+  ⟨NL.reverse h.1, noDrops_reverse h.2.1, noDrops_reverse h.2.2⟩
+
+/-- a comparator that respects the equivalence on values that are no drops at the top -/
+def LessRespectsND (d : Bool) (less : GoVal → GoVal → R Bool) : Prop :=
+  ∀ a a' b b', noDrop a = true → noDrop a' = true → noDrop b = true → noDrop b' = true →
+    RepEq d a a' → RepEq d b b' → less a b = less a' b'
+
+theorem insertRevM_relD {less : GoVal → GoVal → R Bool} (hl : LessRespectsND d less)
+    {x x' : GoVal} (hx : RepEq d x x') (nx : noDrop x = true) (nx' : noDrop x' = true) :
+    ∀ {rev rev' : List GoVal}, NLD d rev rev' → RRel false (NLD d) (insertRevM less x rev) (insertRevM less x' rev')
+  | [], [], _ => by simp only [insertRevM, RRel]; exact NLD.cons hx nx nx' NLD.nil
+  | [], _ :: _, h => by have := h.1; simp [NL, normList] at this
+  | _ :: _, [], h => by have := h.1; simp [NL, normList] at this
+  | y :: rev, y' :: rev', h => by
+    have h' : normList d (y :: rev) = normList d (y' :: rev') := h.1
+    simp only [normList, List.cons.injEq] at h'
+    have ny : noDrop y = true := h.2.1.head
+    have ny' : noDrop y' = true := h.2.2.head
+    have htl : NLD d rev rev' := ⟨h'.2, h.2.1.tail, h.2.2.tail⟩
+    simp only [insertRevM, hl x x' y y' nx nx' ny ny' hx h'.1]
+    cases less x' y' with
+    | ok b =>
+      simp only [Res.bind]
+      cases b with
+      | true =>
+        simp only [if_true]
+        exact RRel.bind (insertRevM_relD hl hx nx nx' htl) (fun r r' hr => NLD.cons h'.1 ny ny' hr)
+      | false => simp only [Bool.false_eq_true, if_false, RRel]; exact NLD.cons hx nx nx' h
+    | _ => simp [Res.bind, RRel]
+
+theorem insertionLoopM_relD {less : GoVal → GoVal → R Bool} (hl : LessRespectsND d less) :
+    ∀ {rest rest' : List GoVal}, NLD d rest rest' → ∀ {rev rev' : List GoVal}, NLD d rev rev' →
+      RRel false (NLD d) (insertionLoopM less rev rest) (insertionLoopM less rev' rest')
+  | [], [], _, _, _, hr => by simp only [insertionLoopM, RRel]; exact hr.reverse
+  | [], _ :: _, h, _, _, _ => by have := h.1; simp [NL, normList] at this
+  | _ :: _, [], h, _, _, _ => by have := h.1; simp [NL, normList] at this
+  | x :: rest, x' :: rest', h, _, _, hr => by
+    have h' : normList d (x :: rest) = normList d (x' :: rest') := h.1
+    simp only [normList, List.cons.injEq] at h'
+    have htl : NLD d rest rest' := ⟨h'.2, h.2.1.tail, h.2.2.tail⟩
+    simp only [insertionLoopM]
+    exact RRel.bind (insertRevM_relD hl h'.1 h.2.1.head h.2.2.head hr) (fun r r' hrr => insertionLoopM_relD hl htl hrr)
+
+/-- Go's insertion sort of a converted `[]any` with a comparator that respects the equivalence on non-drops -/
+theorem insertionSortM_relD {less : GoVal → GoVal → R Bool} (hl : LessRespectsND d less)
+    {xs xs' : List GoVal} (h : NLD d xs xs') : RRel false (NLD d) (insertionSortM less xs) (insertionSortM less xs') :=
+  insertionLoopM_relD hl h NLD.nil
+
+/-- the sort text of `sort_natural`: related elements that went through `ToLiquid` have the same text — a drop that
+    yields nil IS nil there, and the text of anything else is `fmt.Sprint(values.ResolveDrops(·))` -/
+theorem natKey_repEq_noDrop {x x' : GoVal} (nx : noDrop x = true) (nx' : noDrop x' = true) (h : RepEq d x x') :
+    natKey x = natKey x' := by
+  have hs := sprintR_repEq h
+  have hn := isNil_repEq_noDrop nx nx' h
+  unfold natKey
+  cases x <;> cases x' <;> simp [GoVal.isNil] at hn <;> simp only [hs]
+
+/-- the sort text of `sort_natural: key`: the entry of a string-keyed map goes through `ToLiquid` before the string
+    test, so related maps (entries that are drops, drops of drops, drops that yield nil) have the same text -/
+theorem natKeyBy_repEq_noDrop (name : Bytes) {m m' : GoVal} (nm : noDrop m = true) (nm' : noDrop m' = true)
+    (h : RepEq d m m') : natKeyBy name m = natKeyBy name m' := by
+  rcases repEq_noDrop_cases nm nm' h with rfl | ⟨h1, h2⟩
+  · rfl
+  · cases m with
+    | map kt vt kvs =>
+      rcases norm_inv_map nm' h with rfl | ⟨_, vt', kvs', rfl, _, hn⟩
+      · rfl
+      · cases kt <;> try rfl
+        have hf := mapFind_rel hn (.str name)
+        simp only [natKeyBy]
+        cases e1 : mapFind kvs (.str name) <;> cases e2 : mapFind kvs' (.str name) <;> simp [e1, e2] at hf
+        · rfl
+        · next v v' =>
+          have hl := toLiquid_repEq hf
+          simp only [Option.map_some]
+          rcases repEq_noDrop_cases (toLiquid_noDrop v) (toLiquid_noDrop v') hl with e | ⟨g1, g2⟩
+          · rw [e]
+          · generalize v.toLiquid = u at *
+            generalize v'.toLiquid = u' at *
+            cases u <;> simp [rigidF] at g1 <;> cases u' <;> simp [rigidF] at g2 <;> rfl
+    | slice t xs =>
+      obtain ⟨xs', hs, _⟩ := norm_inv_seq (u := .slice t xs) rfl nm' h
+      cases m' <;> simp [seqElems?] at hs <;> rfl
+    | array t xs =>
+      obtain ⟨xs', hs, _⟩ := norm_inv_seq (u := .array t xs) rfl nm' h
+      cases m' <;> simp [seqElems?] at hs <;> rfl
+    | _ => simp [rigidF] at h1
+
+/-- a sort-text function that respects the equivalence on values that are no drops at the top -/
+def KeyRespectsND (d : Bool) (f : GoVal → R Bytes) : Prop :=
+  ∀ x x', noDrop x = true → noDrop x' = true → RepEq d x x' → f x = f x'
+
+theorem natLessM_respectsND {f : GoVal → R Bytes} (hf : KeyRespectsND d f) : LessRespectsND d (natLessM f) := by
+  intro a a' b b' na na' nb nb' ha hb
+  unfold natLessM; rw [hf a a' na na' ha, hf b b' nb nb' hb]
+
+/-- a decorated element up to representation, for every `d` -/
+def dnormD (d : Bool) (p : Bytes × GoVal) : Bytes × GoVal := (p.1, p.2.norm d)
+
+theorem decorate_relD {f : GoVal → R Bytes} (hf : KeyRespectsND d f) :
+    ∀ {xs xs' : List GoVal}, NLD d xs xs' →
+      RRel false (fun ds ds' => ds.map (dnormD d) = ds'.map (dnormD d)) (decorate f xs) (decorate f xs')
+  | [], [], _ => by simp [decorate, RRel]
+  | [], _ :: _, h => by have := h.1; simp [NL, normList] at this
+  | _ :: _, [], h => by have := h.1; simp [NL, normList] at this
+  | x :: xs, x' :: xs', h => by
+    have h' : normList d (x :: xs) = normList d (x' :: xs') := h.1
+    simp only [normList, List.cons.injEq] at h'
+    have htl : NLD d xs xs' := ⟨h'.2, h.2.1.tail, h.2.2.tail⟩
+    simp only [decorate, hf x x' h.2.1.head h.2.2.head h'.1]
+    cases f x' with
+    | ok k =>
+      simp only [Res.bind]
+      refine RRel.bind (decorate_relD hf htl) (fun ds ds' hd => ?_)
+      simp only [RRel, List.map_cons, dnormD, hd, h'.1]
+    | _ => simp [Res.bind, RRel]
+
+theorem mergeTexts_relD {ds ds' : List (Bytes × GoVal)} (h : ds.map (dnormD d) = ds'.map (dnormD d)) :
+    (ds.mergeSort textLe).map (dnormD d) = (ds'.mergeSort textLe).map (dnormD d) := by
+  have e : ∀ l : List (Bytes × GoVal), List.map (dnormD d) (l.mergeSort textLe) = (List.map (dnormD d) l).mergeSort textLe :=
+    fun l => List.map_mergeSort (r := textLe) (s := textLe) (f := dnormD d) (fun a _ b _ => rfl)
+  rw [e, e, h]
+
+theorem snd_relD {ys ys' : List (Bytes × GoVal)} (h : ys.map (dnormD d) = ys'.map (dnormD d)) :
+    normList d (ys.map (·.2)) = normList d (ys'.map (·.2)) := by
+  have := congrArg (List.map (·.2)) h
+  simpa [normList_eq_map, List.map_map, dnormD, Function.comp_def] using this
+
+/-- `sort.Sort(keySortable{…})` of a converted `[]any`, for every `d`: exactly related up to 12 elements; beyond, up
+    to the tie test -/
+theorem sortNatM_relD (t : Bool) {f : GoVal → R Bytes} (hf : KeyRespectsND d f)
+    {xs xs' : List GoVal} (hx : NLD d xs xs') (ht : t = true ∨ xs.length ≤ maxInsertion) :
+    RRel t (NL d) (sortNatM true f xs) (sortNatM true f xs') := by
+  unfold sortNatM
+  rw [← normList_length hx.1]
+  split
+  · exact RRel.weaken (rrel_mono (fun _ _ h => h.1) (insertionSortM_relD (natLessM_respectsND hf) hx))
+  · next hlen =>
+    have htt : t = true := by rcases ht with h | h; exact h; exact absurd h hlen
+    subst htt
+    refine RRel.bind (RRel.weaken (decorate_relD hf hx)) (fun ds ds' hd => ?_)
+    have hm := mergeTexts_relD hd
+    simp only [Bool.true_and]
+    cases tiesVisibleT (ds.mergeSort textLe) <;> cases tiesVisibleT (ds'.mergeSort textLe) <;>
+      simp only [if_true, Bool.false_eq_true, if_false, tieOrder]
+    · exact snd_relD hm
+    · exact RRel.unmR rfl _ _
+    · exact RRel.unmL rfl _ _
+    · exact RRel.unmL rfl _ _
+
+/-- `sort_natural`, `sort_natural: key` for every `d` (drops nested in the elements, in the entries under the key, in
+    the key argument): related results; exactly (`t = false`) when the array has at most 12 elements, up to the
+    `unmodelled` tie test beyond -/
+theorem sortNaturalWith_relD_gen (t : Bool) {xs xs' : List GoVal} {k k' : GoVal} (hx : NLD d xs xs') (hk : URel d k k')
+    (ht : t = true ∨ xs.length ≤ maxInsertion) :
+    RRel t (SR d) (sortNaturalWith true [.slice .any xs, k]) (sortNaturalWith true [.slice .any xs', k']) := by
+  have hbody : ∀ (f : GoVal → R Bytes), KeyRespectsND d f →
+      RRel t (SR d)
+        ((sortNatM true f xs).bind fun ys => .ok (.slice .any ys))
+        ((sortNatM true f xs').bind fun ys => .ok (.slice .any ys)) := by
+    intro f hf
+    exact RRel.bind (sortNatM_relD t hf hx ht) (fun ys ys' hn => ⟨slice_any_rel hn, rfl, rfl⟩)
+  by_cases hn : k = .nil
+  · have hn' := (urel_nil_iff hk).mp hn
+    subst hn hn'
+    simp only [sortNaturalWith, Res.bind]
+    exact hbody natKey (fun x x' nx nx' h => natKey_repEq_noDrop nx nx' h)
+  · have hn' : k' ≠ .nil := fun e => hn ((urel_nil_iff hk).mpr e)
+    have e1 : sortNaturalWith true [.slice .any xs, k] = (sprintR k).bind fun nm =>
+        (sortNatM true (natKeyBy nm) xs).bind fun ys => .ok (.slice .any ys) := by
+      cases k <;> first | exact absurd rfl hn | (simp only [sortNaturalWith]; cases sprintR _ <;> rfl)
+    have e2 : sortNaturalWith true [.slice .any xs', k'] = (sprintR k').bind fun nm =>
+        (sortNatM true (natKeyBy nm) xs').bind fun ys => .ok (.slice .any ys) := by
+      cases k' <;> first | exact absurd rfl hn' | (simp only [sortNaturalWith]; cases sprintR _ <;> rfl)
+    rw [e1, e2, sprintR_repEq hk.2.2]
+    cases sprintR k' with
+    | ok nm => exact hbody (natKeyBy nm) (fun x x' nx nx' h => natKeyBy_repEq_noDrop nm nx nx' h)
+    | _ => cases t <;> simp [Res.bind, RRel]
+
+theorem sortNaturalWith_relD {xs xs' : List GoVal} {k k' : GoVal} (hx : NLD d xs xs') (hk : URel d k k') :
+    RRel true (SR d) (sortNaturalWith true [.slice .any xs, k]) (sortNaturalWith true [.slice .any xs', k']) :=
+  sortNaturalWith_relD_gen true hx hk (.inl rfl)
+
+/-- on arrays of at most 12 elements `sort_natural` and `sort_natural: key` respect the equivalence with nested drops
+    exactly: no `unmodelled` escape -/
+theorem sortNaturalWith_relD_short {xs xs' : List GoVal} {k k' : GoVal} (hx : NLD d xs xs') (hk : URel d k k')
+    (hlen : xs.length ≤ maxInsertion) :
+    RRel false (SR d) (sortNaturalWith true [.slice .any xs, k]) (sortNaturalWith true [.slice .any xs', k']) :=
+  sortNaturalWith_relD_gen false hx hk (.inr hlen)
+
+/-- `sort_natural` (without key, with a string key, with any key argument): the related sorted list for every `d`, or
+    `unmodelled` on a side where ties are visible beyond 12 elements -/
+theorem sortNatural_respects_gen (d : Bool) : ImplRespects true d [.val .anys, .val .any] (eager sortNatural) := by
+  intro cs cs' h
+  obtain ⟨a, as, a', as', rfl, rfl, h1, h2⟩ := argsRel_cons h
+  obtain ⟨k, k', rfl, rfl, hk⟩ := Num.argsRel_any1 h2
+  obtain ⟨c, c', rfl, rfl, xs, xs', rfl, rfl, hx, nx, nx'⟩ := argRel_val h1
+  rw [eager_val2, eager_val2]
+  exact wrapSR_rel (sortNaturalWith_relD ⟨hx, nx, nx'⟩ hk)
+
 end ArrF
 
 /-- every standard filter except those that observe the Go representation (`reprFilters`:
@@ -508,22 +738,25 @@ theorem filterRespects_std_upto (name : Bytes) (h : name ∉ reprFilters) : Filt
       (fun hn => absurd (by simp [reprFilters]) hn)
       (name, f) (lookupImpl_mem hf) h sg hs)
 
-/-- the filters left out of the theorem for drops nested in containers (`d = true`): `sort_natural` (its congruence is
-    proved for `d = false` only) and the filters that observe the Go representation. `sort` is NOT among them since
-    `fixes/sort-key-drops` (`ArrF.sort_respects`, every `d`). -/
-def nestedDropsOpen : List Bytes := [ArrF.bn "sort_natural", JsonF.bn "json", JsonF.bn "inspect", JsonF.bn "type"]
+/-- the filters left out of the theorem for drops nested in containers (`d = true`): the filters that observe the Go
+    representation, and nothing else — the same list as `reprFilters` (`nestedDropsOpen_eq_reprFilters`). `sort` is NOT
+    among them since `fixes/sort-key-drops` (`ArrF.sort_respects`, every `d`), and `sort_natural` is not either
+    (`ArrF.sortNatural_respects_gen`, every `d`). -/
+def nestedDropsOpen : List Bytes := [JsonF.bn "json", JsonF.bn "inspect", JsonF.bn "type"]
 
-/-- the engine without those four -/
+theorem nestedDropsOpen_eq_reprFilters : nestedDropsOpen = reprFilters := rfl
+
+/-- the engine without those three -/
 def withoutNestedOpen (n : Bytes) : Bool := !nestedDropsOpen.contains n
 
-/-- every standard filter except `sort_natural`, `json`, `inspect`, `type` — `sort` and `sort: key` included — respects
-    representation equivalence WITH drops nested in containers, up to `unmodelled` (the tie order of `sort` beyond 12
-    elements), for every name (registered or not) -/
+/-- every standard filter except `json`, `inspect`, `type` — `sort`, `sort: key`, `sort_natural` and `sort_natural: key`
+    included — respects representation equivalence WITH drops nested in containers, up to `unmodelled` (the tie order
+    of the two sorts beyond 12 elements), for every name (registered or not) -/
 theorem filterRespects_std_nested (name : Bytes) (h : name ∉ nestedDropsOpen) : FilterRespects true true name :=
   filterRespects_of_impl name (fun sg f hs hf =>
     goodEntry_table true true nestedDropsOpen
       (fun _ => goodEntry_of_sig true true ⟨ArrF.bn "sort", [.val .anys, .val .any], false⟩ (by decide +kernel) (ArrF.sort_respects true))
-      (fun hn => absurd (by simp [nestedDropsOpen]) hn)
+      (fun _ => goodEntry_of_sig true true ⟨ArrF.bn "sort_natural", [.val .anys, .val .any], false⟩ (by decide +kernel) (ArrF.sortNatural_respects_gen true))
       (fun hn => absurd (by simp [nestedDropsOpen]) hn)
       (fun hn => absurd (by simp [nestedDropsOpen]) hn)
       (fun hn => absurd (by simp [nestedDropsOpen]) hn)
